@@ -71,6 +71,12 @@ def drive(oracle, knobs, supplier, collect_states=False):
                 oracle.step(ctx)
                 if ctx.exc is not None and op['op'] != 'bad':
                     world.count('op_exceptions')
+                if op['op'] == 'bad':
+                    world.count(('fault:' if ctx.exc is not None else 'fault_not_raised:') + op['what'])
+                elif op['op'] == 'fmt' and 'raw' in (op.get('spec') or {}):
+                    world.count(('fault:' if ctx.exc is not None else 'fault_not_raised:') + 'format_spec_op')
+                if ctx.timeout:
+                    world.count('fault:step_budget_exhausted')
                 if oracle.nontrivial(ctx):
                     world.count('nontrivial_steps')
                     world.nontrivial = True
